@@ -16,7 +16,7 @@ for d in sorted(glob.glob('/verif/seeded/C*-*')):
                 f"{c['demo_exit_with_change']}/{c['demo_exit_on_clean_tree']} | {det or '-'} | {miss or '-'} |")
 open('/verif/seeded/SUMMARY.md', 'w').write("""# Independently seeded changes
 
-Seeds -1/-2 are the first round, -3/-4 the second, ... -13/-14 the seventh (from the second round on the seeders were told
+Seeds -1/-2 are the first round, -3/-4 the second, ... -13/-14 the seventh, -15 the eighth (one change per property) (from the second round on the seeders were told
 which change ideas had already been used; DESIGN.md section 12.2 lists every first-run miss and what was strengthened).  Each directory holds `patch.diff` (applies to /repo at the commit in `meta.json`; `patch.orig.diff` = the
 seeder's own diff when it had to be ported after a later repair of /repo), `demo.py` (exit 1 = property violated;
 `demo.orig.py` = the seeder's own when it had to be adapted), `notes.txt` (the seeder's notes), `idea.txt`, `eval.txt`
